@@ -1,4 +1,4 @@
-CONSTANTS OwnSca = 500  Check = {"C21","C22","C23"}
+CONSTANTS OwnSca = 500  Check = {"C21","C22","C23"}  Phy2M = TRUE
 SPECIFICATION TSpec
 INVARIANTS TypeOK
 CHECK_DEADLOCK FALSE
